@@ -41,14 +41,17 @@ func init() {
 
 func (s *nestedSpace) Build(path []Op) (*World, error) {
 	w := s.newWorld()
-	w.TrackStale = s.detach
+	// after a detachment the harness continues either with the handle a caller gets from the value handed back
+	// (keeping the old handle as a stale one), or — "oldhandle" — with the very handles it held before, of the
+	// detached container and of its descendants (what a caller that keeps its wrapper objects does)
+	w.TrackStale = s.detach && s.spec.Extra["oldhandle"] != 1
 	w.OpMaps = func(c *Cont) bool { return true }
 	if s.spec.Has("crash") || s.spec.Has("twin") || s.spec.Has("faults") {
 		w.KeyStorage = true
 		w.TrackCommits = s.spec.Has("crash")
 		w.TwinBase = func() (*World, error) {
 			x := s.newWorld()
-			x.TrackStale = s.detach
+			x.TrackStale = s.detach && s.spec.Extra["oldhandle"] != 1
 			x.OpMaps = func(c *Cont) bool { return true }
 			return x, nil
 		}
